@@ -12,6 +12,7 @@ use std::{
 use serde_json::{json, Value};
 
 pub mod assembler;
+pub mod cidq;
 pub mod congestion;
 pub mod dedup;
 pub mod engine;
@@ -329,10 +330,47 @@ fn run_inner(property: &str, thorough: bool, deadline: Instant) -> Vec<PartOut> 
                 "C01",
                 Mode::Bfs,
                 vec![Plan {
-                    cfg: (),
+                    cfg: false,
                     depth: if thorough { 16 } else { 5 },
                 }],
                 json!({"insert": dedup::PNS}),
+                thorough,
+                sub_deadline(deadline, 1),
+            ));
+        }
+        "C04" => {
+            // the replay window itself: both alphabets
+            parts.push(run_part::<dedup::DedupSys>(
+                "C04",
+                Mode::Bfs,
+                vec![
+                    Plan {
+                        cfg: false,
+                        depth: if thorough { 16 } else { 5 },
+                    },
+                    Plan {
+                        cfg: true,
+                        depth: if thorough { 7 } else { 4 },
+                    },
+                ],
+                json!({"insert": dedup::PNS, "insert (edge-dense profile)": dedup::PNS_EDGE}),
+                thorough,
+                sub_deadline(deadline, 1),
+            ));
+        }
+        "C09" => {
+            parts.push(run_part::<cidq::CidqSys>(
+                "C09",
+                Mode::Bfs,
+                vec![Plan {
+                    cfg: (),
+                    depth: if thorough { 12 } else { 6 },
+                }],
+                json!({
+                    "insert": "NEW_CONNECTION_ID with sequence = active-1 ..= active+2*LEN+1 and retire_prior_to = active ..= active+LEN+3 (clamped to <= sequence as the frame decoder guarantees)",
+                    "next": "switch to the next known CID",
+                    "invariants": "active()/active_seq() equal the map model's; every ring slot holds a CID the model still knows, at the slot of its sequence number; no accepted CID is lost",
+                }),
                 thorough,
                 sub_deadline(deadline, 1),
             ));
@@ -541,6 +579,7 @@ pub fn replay(v: &Value) -> String {
             replay_text::<range_set::RsSys<proto::verif_comp::VerifArrayRangeSet>>(v)
         }
         "dedup" => replay_text::<dedup::DedupSys>(v),
+        "cid_queue" => replay_text::<cidq::CidqSys>(v),
         "mtud" => replay_text::<mtud::MtuSys>(v),
         "cubic" => replay_text::<congestion::CcSys<congestion::KCubic>>(v),
         "new_reno" => replay_text::<congestion::CcSys<congestion::KNewReno>>(v),
